@@ -108,7 +108,7 @@ func Generate(profile string, seed uint64, tier string) (*Scenario, error) {
 		genC14(g, sc, tier, seed)
 	case "C16":
 		sc.Property = "C16"
-		genC16(g, sc, tier)
+		genC16(g, sc, tier, seed)
 	case "C09":
 		sc.Property = "C09"
 		genC09(g, sc, tier)
@@ -1344,9 +1344,29 @@ func (g *G) aclSet() []any {
 
 // genC16: an admin registers clients and edits ACLs drawn from a small lattice; requests over
 // every registered (method, route) with every token state; token expiry by clock advance; restarts.
-func genC16(g *G, sc *Scenario, tier string) {
+// c16Cell returns the idx-th ACL set of the walk over all ordered sets of 0, 1 and 2 lattice entries
+// (7 resources x read/write x allow/deny = 28 entries; 1 + 28 + 784 = 813 sets).
+func c16Cell(idx int) []any {
+	entry := func(k int) any {
+		return map[string]any{"Resource": c16Resources[k/4], "Action": []string{"read", "write"}[(k/2)%2], "Deny": k%2 == 1}
+	}
+	e := len(c16Resources) * 4
+	idx %= 1 + e + e*e
+	switch {
+	case idx == 0:
+		return nil
+	case idx <= e:
+		return []any{entry(idx - 1)}
+	default:
+		idx -= 1 + e
+		return []any{entry(idx / e), entry(idx % e)}
+	}
+}
+
+func genC16(g *G, sc *Scenario, tier string, seed uint64) {
 	sc.Ops = append(sc.Ops, Op{K: "setup"})
-	sc.Ops = append(sc.Ops, Op{K: "acl", DS: "client1", A: g.aclSet()})
+	// the first ACL set of client1 walks the lattice by scenario index; later edits are drawn at random (0-3 entries)
+	sc.Ops = append(sc.Ops, Op{K: "acl", DS: "client1", A: c16Cell(int(seed % 10_000_000))})
 	if g.P(0.5) {
 		sc.Ops = append(sc.Ops, Op{K: "acl", DS: "client2", A: g.aclSet()})
 	}
